@@ -469,6 +469,9 @@ func init() {
 			if c.Matrix["C03_near_misses"]["control/after/succeeded"] == 0 || len(c.Matrix["C03_near_misses"]) < 100 {
 				miss = append(miss, fmt.Sprintf("near-miss words: %d cells, control %d", len(c.Matrix["C03_near_misses"]), c.Matrix["C03_near_misses"]["control/after/succeeded"]))
 			}
+			if c.Matrix["C03_caller_shapes"]["burn/named/succeeded"] < 20 || c.Matrix["C03_caller_shapes"]["plain/named/succeeded"] < 20 || c.Matrix["C03_caller_shapes"]["plain/other/failed"] < 20 {
+				miss = append(miss, fmt.Sprintf("caller shapes: %v", c.Matrix["C03_caller_shapes"]))
+			}
 			if c.Matrix["C03_subsets_module"]["none/ok"] == 0 || c.Matrix["C03_subsets_other"]["none/ok"] == 0 {
 				miss = append(miss, "the empty subset (everything true) never succeeded")
 			}
